@@ -204,7 +204,7 @@ def finish(mod, drv, agg, post, wall, write_evidence=True):
     kf = findings.load()
     # ---- classify violations
     unknown, known = findings.classify(prop, agg['violations'], kf)
-    replay_dir = os.path.join(VERIF, 'evidence', 'replay')
+    replay_dir = os.path.join(os.environ.get('VERIF_EVIDENCE_DIR') or os.path.join(VERIF, 'evidence'), 'replay')
     lines = []
     known_keys = sorted({v['key'] for v in known})
     for key in known_keys:
